@@ -219,6 +219,16 @@ func runC05(c *Ctx) {
 		}
 		j, tags := GenJournal(r, o)
 		f := GenBalFlags(r, j, o.Valuation, BalGenOpts{Valued: true})
+		if r.Chance(1, 3) {
+			// two mapping rules of different shape: the mapped account an earlier posting created must not depend on which
+			// rule, or which account, a later posting meets first (seeded change C05-e let mapped accounts share a scratch
+			// buffer, so that the report row of a posting depended on the order of the transactions of a day)
+			accounts, _ := journalNames(j)
+			f.Map = []MapRuleF{{Level: r.Range(1, 2), Suffix: 1, Regex: genPattern(r, accounts)}, {Level: r.Range(1, 2), Suffix: r.Range(2, 3), Regex: genPattern(r, accounts)}}
+			if r.Bool() {
+				f.Map = append(f.Map, MapRuleF{Level: r.Range(1, 3)})
+			}
+		}
 		if r.Chance(1, 2) {
 			f.To = 0 // the report end then comes from the journal period
 		}
